@@ -254,14 +254,18 @@ func (f *Frame) computeLight() {
 			}
 		}
 	}
+	f.heavyNames = map[string]bool{}
 	var cands []*fnode
 	for fn, n := range f.nodes {
+		if leafNeverCalls[fn.Name()] {
+			f.heavyNames[fn.Name()] = true // request/transport entry points: only server/client functions (non-leaf) run them
+			continue
+		}
 		if fn.Type().(*types.Signature).Recv() != nil && extNames[fn.Name()] {
 			cands = append(cands, n)
 		}
 	}
 	sort.Slice(cands, func(i, j int) bool { return cands[i].fn.FullName() < cands[j].fn.FullName() })
-	f.heavyNames = map[string]bool{}
 	var frames []*wset
 	closure := func(n *fnode) (nodes []*fnode, heavy bool) {
 		frames = nil
@@ -741,6 +745,10 @@ var nonLeafFuncs = map[string]bool{
 	"(*net/http.Client).Do": true, "(*net/http.Client).Get": true, "(*net/http.Client).Post": true, "net/http.Get": true, "net/http.Post": true,
 	"sort.Sort": true, "sort.Stable": true, "time.AfterFunc": true,
 }
+
+// leafNeverCalls: methods of handler-style library interfaces (http.Handler, http.RoundTripper). Only the
+// server / client entry points listed in nonLeafFuncs invoke them; leaf library code never does.
+var leafNeverCalls = map[string]bool{"ServeHTTP": true, "RoundTrip": true}
 
 // callbackFuncs: library functions that synchronously call exactly the function values passed to them.
 var callbackFuncs = map[string]bool{
